@@ -295,6 +295,16 @@ func buildOverlayRAC(root, pkgDir string) (map[string][]byte, error) {
 				extra = ", " + strings.Join(pnames, ", ")
 			}
 			fmt.Fprintf(&sb, " if !__racPre { __rac_prefail(%q%s) };", c.Key, extra)
+			// free preconditions (`assumes`): assumed by the proof for every call, so a run on
+			// which one is false shows the assumption - and everything proved with it - to be wrong
+			for _, r := range c.Assumes {
+				if strings.HasPrefix(r.Label, "scope-") {
+					continue // a restriction of what the contract covers, not a claim about every call
+				}
+				if txt, ok := substAll(r.Text, fd, lastErr, res0); ok && racExecutable(txt) && !strings.Contains(txt, "old(") {
+					fmt.Fprintf(&sb, " if __racPre && !__guard(func() bool { return %s }) { __rac_fail(%q) };", specToGo(txt, resultName), full+"#assumes:"+r.Label)
+				}
+			}
 			counter := 0
 			var checks strings.Builder
 			for _, r := range c.Ensures {
